@@ -147,3 +147,24 @@ oor!(c09_block_index_out_of_range_2blocks, 1);
 acc!(c09_block_symbols_1block, 0, 1);
 acc!(c09_block_symbols_2blocks, 1, 1);
 acc!(c09_block_external_key_2blocks, 1, 2);
+
+/// C15-K1: the revocation identifiers are the stored signatures, block by block, in order;
+/// external keys likewise
+#[kani::proof]
+#[kani::stub(zeroize::optimization_barrier, crate::kh_support::barrier_stub)]
+#[kani::unwind(6)]
+fn c15_revocation_identifiers_biscuit() {
+    let t = token(1);
+    let ids = t.revocation_identifiers();
+    let ok = ids.len() == 2
+        && ids[0] == t.container.authority.signature.to_bytes()
+        && ids[1] == t.container.blocks[0].signature.to_bytes();
+    let keys = t.external_public_keys();
+    let ok2 = keys.len() == 2 && keys[0].is_none() && keys[1].is_none() && t.block_count() == 2;
+    kani::cover!(ok, "witness: identifiers listed");
+    assert!(ok, "revocation identifiers are not the block signatures in order");
+    assert!(ok2, "external keys / block count do not follow the container");
+    std::mem::forget(ids);
+    std::mem::forget(keys);
+    std::mem::forget(t);
+}
